@@ -7,6 +7,8 @@ import MosnVerif.Lemmas.TransferLookup
 import MosnVerif.Lemmas.UpgTiming
 import MosnVerif.Lemmas.UpgHandshake
 import MosnVerif.Lemmas.HandoverQueue
+import MosnVerif.Lemmas.H1Drain
+import MosnVerif.Lemmas.H2GoAwaySend
 /-!
 # C11 — graceful shutdown and hot upgrade lose no requests (property theorems only; level `other`)
 
@@ -407,6 +409,149 @@ example : (runWith dropAllRule H2GoAway.Conn.initial [.headers 1 false (some 300
 example : (H2GoAway.run H2GoAway.Conn.initial [.headers 1 false none, .data 7 1 false, .data 1 5 true]).2 =
     [Out.goAway 1 1, Out.closed] := by decide
 end h2goaway
+
+/-! ## HTTP/2: responses in flight when the graceful GOAWAY goes out (send side, control frames; `Model/H2GoAwaySend.lean`) -/
+section H2GoAwaySendProps
+open MosnVerif.Model MosnVerif.Lemmas.H2GoAwaySend MosnVerif.Lemmas.Flow
+
+/-- **goaway_keeps_inflight_progress**: for EVERY event list of an HTTP/2 server connection — graceful shut-downs
+(`GoAway()` of the proxy, a GOAWAY of the peer) at any positions, any number of times, interleaved with requests being
+answered, sender passes, WINDOW_UPDATE on streams and on the connection, SETTINGS (initial window, max frame size),
+PING, PRIORITY — the flow-control state reached is EXACTLY the state of the flow model of C18 under the same schedule
+without the go-aways (only requests begun after the GOAWAY are refused): the GOAWAY takes no credit, no SETTINGS and
+no wake-up away from the streams in flight.  Hence (composition with C18) the DATA written never exceeds the peer's
+windows, and a response body of ANY size completes once a conformant peer has granted its rest on the stream and on
+the connection — however the grants are interleaved with the GOAWAY.  The go-away tests of processWindowUpdate /
+processSettings / processPing / processHeaders are the regenerated ones. -/
+theorem goaway_keeps_inflight_progress (evs : List H2GoAwaySend.Ev) (hw : ∀ e ∈ evs, e.wf = true) (i : Nat) :
+    let s := (H2GoAwaySend.run H2GoAwaySend.St.initial evs).flow
+    s = Flow.run (Flow.St.initial .server) (H2GoAwaySend.labelsFrom false evs) ∧
+    Flow.peerOk s.trace = true ∧ s.panicked = false ∧
+    ((Flow.peerOf s.trace).conformant = true → i < s.count →
+      ((s.strm i).rem : Int) ≤ (Flow.peerOf s.trace).w i → ((s.strm i).rem : Int) ≤ (Flow.peerOf s.trace).connW →
+      ((Flow.pump s i (s.strm i).rem).strm i).rem = 0 ∧
+      Flow.sentOn i (Flow.pump s i (s.strm i).rem).trace = Flow.sentOn i s.trace + (s.strm i).rem) := by
+  intro s
+  have ht : s = Flow.run (Flow.St.initial .server) (H2GoAwaySend.labelsFrom false evs) :=
+    run_transparent evs H2GoAwaySend.St.initial false agree_initial
+  have hl := labelsFrom_wf evs false hw
+  have hinv : Inv s := by rw [ht]; exact inv_run _ _ hl (inv_initial .server)
+  refine ⟨ht, hinv.ok, hinv.nopanic, ?_⟩
+  intro hconf hi h1 h2
+  have hex : Exact s := by rw [ht]; exact exact_run _ _ hl (inv_initial .server) (exact_initial .server)
+  obtain ⟨hc, e2, e3⟩ := hex hconf
+  by_cases hr : (s.strm i).rem = 0
+  · rw [hr]; exact ⟨hr, by simp [Flow.pump]⟩
+  · have htr := tracked_of s i hi (by omega)
+    have := pump_completes i (s.strm i).rem s hinv hc hi (Nat.le_refl _) (by rw [e3 i htr]; exact h1) (by rw [e2]; exact h2)
+    exact ⟨this.1, this.2.1⟩
+
+/-- after a graceful GOAWAY (any event list, the connection alive) PING is still answered, SETTINGS are still applied
+and acknowledged, WINDOW_UPDATE (stream and connection level) still adds its credit -/
+theorem goaway_control_frames_processed (evs : List H2GoAwaySend.Ev) (l : Flow.Label) :
+    let s := H2GoAwaySend.run H2GoAwaySend.St.initial evs
+    s.flow.closed = false →
+    (H2GoAwaySend.step s .ping).pingAcks = s.pingAcks + 1 ∧
+    (H2GoAwaySend.step s (.flow l)).flow = Flow.step s.flow l ∧
+    (H2GoAwaySend.isSettings l = true → (Flow.step s.flow l).closed = false →
+      (H2GoAwaySend.step s (.flow l)).settingsAcks = s.settingsAcks + 1) := by
+  intro s hcl
+  obtain ⟨g, hc, _⟩ := run_agree evs H2GoAwaySend.St.initial false agree_initial
+  have hc' : s.code = Gen.H2GoAway.gracefulCode := hc
+  refine ⟨?_, ?_, ?_⟩
+  · simp [H2GoAwaySend.step, H2GoAwaySend.stepWith, H2GoAwaySend.codeRules, hcl, hc', ping_graceful]
+  · simp only [H2GoAwaySend.step, H2GoAwaySend.stepWith, H2GoAwaySend.codeRules, hc', wu_graceful, settings_graceful, hcl]
+    split <;> (try split) <;> simp_all
+  · intro hs hnc
+    have hnw : H2GoAwaySend.isWu l = false := by cases l <;> simp_all [H2GoAwaySend.isWu, H2GoAwaySend.isSettings]
+    simp [H2GoAwaySend.step, H2GoAwaySend.stepWith, H2GoAwaySend.codeRules, hc', settings_graceful, hcl, hs, hnw, hnc]
+
+-- non-vacuity and the negation witness: a response of 70000 bytes, 65535 of them written when the GOAWAY goes out;
+-- the client then grants credit on the stream and on the connection
+def h2gwDemo : List H2GoAwaySend.Ev :=
+  [.open 70000, .flow (.send 0), .flow (.send 0), .flow (.send 0), .flow (.send 0), .flow (.send 0), .shutdown, .ping,
+   .flow (.wuStream 0 70000), .flow (.wuConn 70000), .flow (.send 0), .flow (.send 0)]
+example : ∀ e ∈ h2gwDemo, e.wf = true := by decide
+example : let s := H2GoAwaySend.run H2GoAwaySend.St.initial h2gwDemo
+    (s.flow.strm 0).rem = 0 ∧ Flow.sentOn 0 s.flow.trace = 70000 ∧ s.pingAcks = 1 ∧ s.inGoAway = true ∧ s.goAways = 1 := by decide
+example : ((H2GoAwaySend.run H2GoAwaySend.St.initial (h2gwDemo.take 6)).flow.strm 0).rem = 4465 := by decide
+-- a request begun after the GOAWAY is refused, one begun before it is not
+example : (H2GoAwaySend.run H2GoAwaySend.St.initial [.open 10, .shutdown, .open 10]).flow.count = 1 := by decide
+/-- negation witness (the seeded defect class: WINDOW_UPDATE ignored once a GOAWAY was sent): the rest of the body is
+never written although the client granted the credit -/
+theorem goaway_ignoring_window_update_stalls :
+    ((H2GoAwaySend.runWith H2GoAwaySend.ignoreWuRules H2GoAwaySend.St.initial h2gwDemo).flow.strm 0).rem = 4465 := by decide
+
+end H2GoAwaySendProps
+
+
+/-! ## the drain mark of an HTTP/1 server connection (hot upgrade: `Connection: close` on the next response) -/
+section H1DrainProps
+open MosnVerif.Model MosnVerif.Lemmas.H1Drain
+
+/-- **h1_goaway_sticky**: for EVERY interleaving of the mark (the transfer event of the old process's read loop) with
+request-parse and response-write events — `pre` is whatever happened on the connection before the mark (idle, a request
+outstanding, several keep-alive requests served), `post` whatever happens after it (the rest of a half-received request
+is parsed, the upstream answers, further requests arrive): the mark is never cleared, and after the mark the
+connection writes at most ONE more response — it carries `Connection: close` and the connection is closed right after
+it (or nothing is written and the connection stays open, still marked).  The assignment rules are the regenerated
+`markUpdate` / `parseUpdate`, the close decision the regenerated `respCloses`. -/
+theorem h1_goaway_sticky (pre post : List H1Drain.Ev) :
+    let c := (H1Drain.run H1Drain.Conn.initial (pre ++ [H1Drain.Ev.mark])).1
+    c.flag = true ∧ (H1Drain.run c post).1.flag = true ∧
+    (c.closed = false →
+      ((H1Drain.run c post).2 = [] ∧ (H1Drain.run c post).1.closed = false) ∨
+      ((H1Drain.run c post).2 = [H1Drain.Out.resp true, H1Drain.Out.closed] ∧ (H1Drain.run c post).1.closed = true)) ∧
+    (c.closed = true → (H1Drain.run c post).2 = []) := by
+  intro c
+  have hf : c.flag = true := by
+    show (H1Drain.run H1Drain.Conn.initial (pre ++ [H1Drain.Ev.mark])).1.flag = true
+    rw [run_append, run_cons, run_nil]
+    exact mark_sets (H1Drain.run H1Drain.Conn.initial pre).1.flag
+  exact ⟨hf, run_flag c post hf, fun hc => run_marked c post hf hc, fun hc => run_closed c post hc⟩
+
+/-- the first response after the mark IS written with `Connection: close`: whether a request was outstanding at the
+mark (`cur = some rc`: parsed and waiting for the upstream) and its response ends, or the connection was idle / a
+request half received and the (rest of the) request is parsed and answered — each followed by anything. -/
+theorem h1_first_response_after_mark_closes (pre rest : List H1Drain.Ev) (rc : Bool) :
+    let c := (H1Drain.run H1Drain.Conn.initial (pre ++ [H1Drain.Ev.mark])).1
+    c.closed = false →
+    (c.cur.isSome = true → (H1Drain.run c (H1Drain.Ev.respond :: rest)).2 = [H1Drain.Out.resp true, H1Drain.Out.closed]) ∧
+    (c.cur = none → (H1Drain.run c (H1Drain.Ev.parse rc :: H1Drain.Ev.respond :: rest)).2 = [H1Drain.Out.resp true, H1Drain.Out.closed]) := by
+  intro c hc
+  have hf : c.flag = true := (h1_goaway_sticky pre []).1
+  have key : ∀ (d : H1Drain.Conn) (r : Bool), d.cur = some r → d.closed = false → d.flag = true →
+      (H1Drain.step d H1Drain.Ev.respond).2 = [H1Drain.Out.resp true, H1Drain.Out.closed] ∧
+      (H1Drain.step d H1Drain.Ev.respond).1.closed = true := by
+    intro d r h1 h2 h3
+    simp [H1Drain.step, H1Drain.stepWith, h1, h2, h3, resp_of_mark r]
+  constructor
+  · intro hcur
+    obtain ⟨r, hr⟩ := Option.isSome_iff_exists.mp hcur
+    have h1 := key c r hr hc hf
+    rw [run_cons, h1.1, run_closed _ rest h1.2]; rfl
+  · intro hcur
+    have hp : (H1Drain.step c (H1Drain.Ev.parse rc)).2 = [] ∧ (H1Drain.step c (H1Drain.Ev.parse rc)).1.closed = false ∧
+        (H1Drain.step c (H1Drain.Ev.parse rc)).1.cur = some rc := by
+      refine ⟨?_, ?_, ?_⟩ <;> simp [H1Drain.step, H1Drain.stepWith, hc, hcur]
+    have h1 := key _ rc hp.2.2 hp.2.1 (step_flag c _ hf)
+    rw [run_cons, hp.1, run_cons, h1.1, run_closed _ rest h1.2]; rfl
+
+-- non-vacuity: a keep-alive connection serves requests without `Connection: close` until it is marked; the mark while
+-- idle, while a request waits for the upstream, and while the response is being written (ordered after that respond)
+example : (H1Drain.run H1Drain.Conn.initial [.parse false, .respond, .parse false, .respond]).2 = [.resp false, .resp false] := by decide
+example : (H1Drain.run H1Drain.Conn.initial [.parse false, .respond, .mark, .parse false, .respond, .parse false, .respond]).2 =
+    [.resp false, .resp true, .closed] := by decide
+example : (H1Drain.run H1Drain.Conn.initial [.parse false, .mark, .respond, .parse false]).2 = [.resp true, .closed] := by decide
+example : (H1Drain.run H1Drain.Conn.initial [.parse false, .respond, .mark]).1.closed = false := by decide
+/-- negation witness (the seeded defect class: the mark overwritten by every parsed request): a keep-alive client whose
+connection was marked while idle is never told to reconnect -/
+theorem h1_overwrite_loses_mark :
+    (H1Drain.runWith H1Drain.overwriteRules H1Drain.Conn.initial [.parse false, .respond, .mark, .parse false, .respond, .parse false, .respond]).2 =
+    [.resp false, .resp false, .resp false] := by decide
+
+end H1DrainProps
+
 
 /-! ## stage manager -/
 
